@@ -108,7 +108,8 @@ def gen_cases(ctx, n):
             na = (k == 7)
             cases.append({"kind": "text", "i": i, "map": m, "text": gen_text(r, m, na)})
         else:
-            cases.append({"kind": "program", "i": i, "map": m, "src": gen_program(r, m)})
+            via = "canon" if (i % 20 == 19 and all(o != n for o, n in m)) else "transform"
+            cases.append({"kind": "program", "via": via, "i": i, "map": m, "src": gen_program(r, m)})
     return cases
 
 
@@ -150,11 +151,21 @@ def impl_case(c):
             renders.append({"imports": [[i.fullname, i.import_as] for i in self.importset.imports], "text": str(res)})
             return res
         S.SourceToSourceImportBlockTransformation.pretty_print = pp
+        order = [[k, v] for k, v in m.items()]
         try:
-            out = S.transform_imports(PythonBlock(c["src"]), m)
+            if c.get("via") == "canon":
+                # through __canonical_imports__ of a database; the order in which a multi-entry map is
+                # applied is whatever ImportMap.items() yields: an oracle argument of the model
+                from pyflyby._importdb import ImportDB
+                db = ImportDB("__canonical_imports__ = %r\n" % (m,))
+                order = [[k, v] for k, v in db.canonical_imports.items()]
+                out = S.canonicalize_imports(PythonBlock(c["src"]), db=db)
+            else:
+                out = S.transform_imports(PythonBlock(c["src"]), m)
         finally:
             S.SourceToSourceImportBlockTransformation.pretty_print = orig
-        return {"blocks": blocks, "renders": renders, "out": out.text.joined, "wordchars": wordchars(c["src"])}
+        return {"blocks": blocks, "renders": renders, "out": out.text.joined, "wordchars": wordchars(c["src"]),
+                "order": order}
     raise ValueError(c["kind"])
 
 
@@ -186,13 +197,14 @@ def model_exprs(cases, impl):
             index.append((ci, "text", None))
         else:
             w = cm.clist([cm.cN(ord(x)) for x in im["wordchars"]])
+            mp = c_map(im.get("order", c["map"]))
             for bi, b in enumerate(im["blocks"]):
                 if "text" in b:
-                    exprs.append("run_text %s %s %s" % (w, c_map(c["map"]), cm.cstr(b["text"])))
+                    exprs.append("run_text %s %s %s" % (w, mp, cm.cstr(b["text"])))
                     index.append((ci, "btext", bi))
                 else:
                     for ii, (f, a) in enumerate(b["imports"]):
-                        exprs.append("run_replace %s %s %s" % (c_map(c["map"]), cm.cstr(f), cm.cstr(a)))
+                        exprs.append("run_replace %s %s %s" % (mp, cm.cstr(f), cm.cstr(a)))
                         index.append((ci, "bimp", (bi, ii)))
     return exprs, index
 
@@ -216,6 +228,47 @@ def oracle_replace(c, im):
         f, a = expected_by_string_rule(f, a, old, new)
     if [f, a] != im["imp"]:
         return "Import.replace chain gives %r, the prefix rule gives %r" % (im["imp"], [f, a])
+    return None
+
+
+def toplevel_imports(src):
+    """(fullname, local name) of every top-level import statement, read with stdlib ast."""
+    import ast
+    res = []
+    for node in ast.parse(src).body:
+        if isinstance(node, ast.Import):
+            for a in node.names:
+                res.append((a.name, a.asname or a.name))
+        elif isinstance(node, ast.ImportFrom):
+            mod = "." * node.level + (node.module or "")
+            for a in node.names:
+                res.append((mod + ("" if mod.endswith(".") or not mod else ".") + a.name, a.asname or a.name))
+    return res
+
+
+def oracle_program(src, out, order):
+    """Exactly the imports whose path is OLD / OLD.x are rewritten, the others are untouched, local names kept."""
+    try:
+        before, after = toplevel_imports(src), toplevel_imports(out)
+    except SyntaxError:
+        # an alias equal to a one-component OLD renamed to a dotted NEW gives `... as a.b`: compilability of
+        # the output is property C03's clause, not C18's; counted, not judged here
+        return "unparsable"
+    want, shadowed = [], []
+    for k, (f, a) in enumerate(before):
+        a0 = a
+        for old, new in order:
+            f, a = expected_by_string_rule(f, a, old, new)
+        want.append((f, a))
+        # ImportSet(ignore_shadowed=True): an import whose local name is bound again by another import of
+        # its block is dropped before the rename; that is reformatting (C02/C03), not renaming
+        if any(a0 == a2 for j, (_, a2) in enumerate(before) if j != k):
+            shadowed.append((f, a))
+    names = {a for _, a in after}
+    extra = [x for x in after if x not in want]
+    lost = [x for x in want if x not in after and x[1] not in names and x not in shadowed]
+    if extra or lost:
+        return "top-level imports after the rename: unexpected %r, lost %r" % (extra, lost)
     return None
 
 
@@ -300,8 +353,15 @@ def compare(ctx, cases, impl, exprs, index, model):
                     pred.append(rend["text"])
             if not ok or "".join(pred) != im["out"]:
                 ctx.disagreement("transform_imports output text", c, im["out"], "".join(pred))
+            msg = oracle_program(c["src"], im["out"], im.get("order", c["map"]))
+            if msg == "unparsable":
+                ctx.bump("program_output_unparsable(C03 domain)")
+            elif msg:
+                ctx.violation("replace_iff_component_prefix(program)", c, msg)
             nontriv = any("imports" in b for b in im["blocks"])
-            ctx.bump("program")
+            if sorted(map(tuple, im.get("order", c["map"]))) != sorted(map(tuple, c["map"])):
+                ctx.disagreement("canonical map entries", c, im.get("order"), c["map"])
+            ctx.bump("program:" + c.get("via", "transform"))
         ctx.count(c, nontriv)
         if nontriv:
             ctx.sample({"case": c, "impl": im})
